@@ -1638,6 +1638,20 @@ class TensorDict(TensorDictBase):
                 f"dimensions in the TensorDict ({tensordict_dims})"
             )
 
+        if any(size < 0 for size in shape):
+            # -1 keeps the size of an existing dim, as in torch.Tensor.expand
+            offset = len(shape) - tensordict_dims
+            resolved = []
+            for i, size in enumerate(shape):
+                if size == -1 and i >= offset:
+                    size = self.batch_size[i - offset]
+                elif size < 0:
+                    raise RuntimeError(
+                        f"The expanded size of the tensor ({size}) isn't allowed in a leading, non-existing dimension {i}"
+                    )
+                resolved.append(size)
+            shape = torch.Size(resolved)
+
         # new shape compatibility check
         for old_dim, new_dim in zip(self.batch_size, shape[-tensordict_dims:]):
             if old_dim != 1 and new_dim != old_dim:
